@@ -478,13 +478,42 @@ def gen_plan(seed, index, tier='quick'):
                 prev = steps[i - 1]
                 st['regions'] = prev['regions']
                 st['source'] = 'same_objects'
-                st['api'] = 'Regions'
+                # through the same entry point: the very Regions (or Region)
+                # object is written again
+                st['api'] = prev['api']
                 kw = dict(prev['kwargs'])
                 if c[0] == 'ds9':
                     kw['precision'] = 1 if kw.get('precision') != 1 else 9
                 elif c[0] == 'crtf':
-                    kw['fmt'] = '.1f' if kw.get('fmt') != '.1f' else '.6f'
+                    which = ops.pick(['fmt', 'radunit', 'coordsys'])
+                    if which == 'fmt':
+                        kw['fmt'] = '.1f' if kw.get('fmt') != '.1f' else '.6f'
+                    elif which == 'radunit':
+                        kw['radunit'] = 'arcsec' \
+                            if kw.get('radunit') != 'arcsec' else 'arcmin'
+                    elif kw.get('coordsys') != 'image':
+                        kw['coordsys'] = 'galactic' \
+                            if kw.get('coordsys') != 'galactic' else 'icrs'
+                elif c[0] == 'fits':
+                    if 'header' in kw:
+                        del kw['header']
+                    else:
+                        kw['header'] = {'t': 'dict', 'v': [
+                            ['EXTNAME', 'REGION'], ['OBSERVER', 'verif']]}
                 st['kwargs'] = kw
+                if i != cell_at and prev['overwrite'] and \
+                        '\x00' not in prev['dest'] and ops.chance(0.3):
+                    # ... and once more onto the file just written, this
+                    # time WITHOUT permission to overwrite
+                    st['dest'] = prev['dest']
+                    st.pop('dest_as', None)
+                    if 'dest_as' in prev:
+                        st['dest_as'] = prev['dest_as']
+                    st['prep'] = []
+                    st['overwrite'] = ops.pick([False, None])
+                    st['format'] = c[0]
+                    st['label']['dest_state'] = 'reuse'
+                    st['label']['resolution'] = 'explicit'
             elif how == 'from_readback':
                 # what the previous step wrote, read back from its file
                 st['source'] = 'from_readback'
@@ -700,9 +729,14 @@ class Run:
             kw['format'] = step['format']
         if step['api'] == 'Region':
             target = regs[0]
+        elif src == 'same_objects' and regs is getattr(self, 'prev_regs', 0) \
+                and getattr(self, 'prev_target', None) is not None \
+                and type(self.prev_target).__name__ == 'Regions':
+            target = self.prev_target        # the same Regions object again
         else:
             from regions import Regions
             target = Regions(regs)
+        self.last_target = target
         wrec = []
         with FsSeam(self.disk, self.cfg['encoding']) as seam:
             pos = []
@@ -844,6 +878,7 @@ class Run:
             if step.get('source') == 'from_readback' else None
         outcome, wrec = self.call_write(step, dest_path, trace)
         self.prev_regs = self.last_regs if outcome[0] == 'ok' else None
+        self.prev_target = self.last_target if outcome[0] == 'ok' else None
         self.prev_recipes = step['regions']
         self.prev_from_recipes = self.last_from_recipes
         after = snapshot(self.disk)
@@ -1052,9 +1087,10 @@ class Run:
         ext_fmt = [f for e, f in ALL_EXT.items() if lower.endswith(e)]
         if not ext_fmt or ext_fmt[0] == fmt:
             variants.append(('inferred', dest_path, None))
-        rb = os.path.join(self.scratch, f'rb{i}')
-        shutil.rmtree(rb, ignore_errors=True)
-        os.makedirs(os.path.join(rb, 'sub'))
+        # one directory of copies for the whole run, the same names in every
+        # step: a reader must not remember what a path held before
+        rb = os.path.join(self.scratch, 'rb')
+        os.makedirs(os.path.join(rb, 'sub'), exist_ok=True)
 
         def put(name, content):
             with open(os.path.join(rb, name), 'wb') as fh:
@@ -1114,7 +1150,6 @@ class Run:
             if problem:
                 self.violation('W3-readback', i, step,
                                f'variant {name}: {problem}'[:400])
-        shutil.rmtree(rb, ignore_errors=True)
 
     def result(self):
         # the run digest (determinism self-test) covers everything the
